@@ -909,6 +909,15 @@ func genWfShapes(stream string, seed uint64) []GenCase {
 		sb.WriteString("if (v1 == \"s1\") { return v2; } return v3;")
 		add(sb.String(), "many-constants")
 	}
+	// a function whose last instruction's operand byte takes every small value (one of them equals the
+	// OpReturn opcode; the implicit return must not be decided on that byte)
+	for k := 18; k <= 30; k++ {
+		var sb strings.Builder
+		for j := 0; j < k; j++ {
+			fmt.Fprintf(&sb, "c%d = 1; ", j)
+		}
+		add(sb.String()+"function f() { \"last\"; } function g() { q++; } f(); g(); return 1;", "operand-byte-sweep")
+	}
 	for _, lit := range []string{"65534", "65535", "65536", "70000", "131071"} {
 		add("x = "+lit+"; if (x == "+lit+") { return "+lit+" + 1; } return 0;", "literal-limits")
 		add("function f(a) { if (a) { return "+lit+"; } return [ "+lit+", "+lit+" ]; } return f(1);", "literal-limits")
